@@ -208,6 +208,18 @@ def run(prop, tier="quick", seed=0, replay_path=None):
     for ob in obs:
         if ob.id in alt_ok or ob.meta.get("alt_of"):
             continue
+        if ob.expect == "unsat" and results[ob.id].status == "unknown" and hasattr(mod, "replay") and not ob.model_vars \
+                and getattr(mod, "REPLAY_UNDECIDED", False):
+            # no symbolic inputs to search: ask the module's bounded replay whether the real code violates the clause
+            import types
+            try:
+                rep = mod.replay(ob, types.SimpleNamespace(model={}))
+            except Exception:
+                rep = None
+            if rep and rep.get("reproduced"):
+                searched[ob.id] = ({}, rep)
+                log("  bounded replay found a failing input for undecided", ob.id)
+            continue
         if ob.expect == "unsat" and results[ob.id].status == "unknown" and hasattr(mod, "replay") and ob.model_vars \
                 and getattr(mod, "ABSTRACT_SEARCH", True):
             cand = abstract_search(ob, mod)
@@ -221,7 +233,7 @@ def run(prop, tier="quick", seed=0, replay_path=None):
         results.update(solve.solve_all(todo, timeout_s=budget * 3, want_both=both, progress=progress, retry=False, retry_pass=True))
     for oid, (model, rep) in searched.items():
         r = results[oid]
-        r.status, r.solver, r.model = "sat", "z3-api(abstract search)+replay", model
+        r.status, r.solver, r.model = "sat", "undecided by the solvers; failing input found by abstract search / bounded replay", model
         r.replayed = rep
     solve_s = time.time() - ts
 
